@@ -24,7 +24,7 @@ def key_fn(case, obs, verdict):
 def run(ctx):
     common.standard(
         ctx, harness="hC12", extracted="C12_model", driver_dir="C12",
-        rule=("non-trivial: instance_step cases with to > from; engine cases whose startup profile has at least 2 tokens; wait cases with at least 2 tokens and a busy caller; "
+        rule=("non-trivial: instance_step cases with to > from; engine cases whose startup profile has at least 2 tokens; wait cases with at least 2 tokens and a busy caller; cfg cases whose startup profile has at least 2 tokens; count cases with at least 1 token; "
               "distinct = distinct case lines"),
         key_fn=key_fn,
         translators=[("gofn-istep", "GoFnIstepGen.v"), ("sched", "SchedGen.v")], bridge_files=["Gen/GoFnIstep_bridge.v", "Gen/StartProfile_bridge.v"],
@@ -32,12 +32,14 @@ def run(ctx):
             "extraction: ExtrOcamlBasic only; OCaml driver ocaml/C12/main.ml + ocaml/common/conv.ml",
             "correspondence harness harness/cmd/hC12: real engine.Engine with a gun factory recording (InstanceID, bind instant), "
             "recording wrapper around the real startup schedule (token instants), cause flags (provider !ok, shared rps schedule end, "
-            "external cancel, injected creation failure: NewGun / gun.Bind / rps schedule factory); ammo items with nil / non-nil values or the real provider.Dummy; a first instance that is slow to create); real coreutil.Waiter under a busy caller (wait cases); real schedule.NewInstanceStep drained from a known start instant",
+            "external cancel, injected creation failure: NewGun / gun.Bind / rps schedule factory); ammo items with nil / non-nil values or the real provider.Dummy; a first instance that is slow to create); real coreutil.Waiter under a busy caller (wait cases); real schedule.NewInstanceStep drained from a known start instant; cfg cases: pool decoded by config.DecodeAndValidate through the real plugin registry (coreimport.Import), gun plugin of the harness attributing shots to InstanceIDs",
             "modelled, not verified: startup schedule = abstract token stream (C02); timers never fire early and the clock is monotone "
             "(Go runtime); which engine events cancel the start context (awaitRun, C05) is modelled by labelled cancel sources and "
             "observed by the harness; that a received creation failure of a later instance cancels the start context is the AAwait "
             "step of Model/StartAsync.v, observed as run outcome != ok and no gun bound 100 ms after the failure; that instance.Run reports out-of-ammo exactly on !ok "
             "(is_out OnlyNotOk of Model/StartFire.v) is observed through nil-valued items / the dummy provider, re-read from source only by C03's bridge; "
+            "round 7: const_count / const_offset are exact rational formulas tied to const.go by the sched translator + Gen/StartProfile_bridge.v over C01's Gen/Sched_bridge.v; their float64 evaluation is C01's subject; "
+            "that the registry-made rps factory returns fresh schedule objects (Model/StartPerInst.v Fresh) is observed by the cfg cases, not re-read from registry.go (C18); "
             "the loop's Wait section is proved equal to Model/Waiter.v wait wfixed, whose equality with waiter.go is C04's bridge",
         ],
         assumptions=["Go timers never fire before their deadline; time.Now is monotone",
